@@ -16,8 +16,8 @@ Proof. intros d. repeat split; auto. Qed.
 Lemma dsub_trans : forall a b c, dsub a b -> dsub b c -> dsub a c.
 Proof.
   intros a b c [A1 [A2 [A3 A4]]] [B1 [B2 [B3 B4]]]. repeat split.
-  - destruct A1 as [->|->]; auto.
-  - destruct A2 as [->|->]; auto.
+  - destruct A1 as [-> | ->]; auto.
+  - destruct A2 as [-> | ->]; auto.
   - auto.
   - auto.
 Qed.
@@ -79,7 +79,7 @@ Proof.
   intros s. destruct (I4 s) as [H|[H1 H2]].
   - rewrite H. unfold d1. destruct (aget s0 (d_md d)) eqn:G; [|now left]. cbn [fset d_md].
     destruct (N.eq_dec s s0) as [->|N0].
-    + right. split; [now left|]. rewrite H. unfold d1. rewrite G. cbn. apply aget_adel_eq.
+    + right. split; [now left|apply aget_adel_eq].
     + left. now apply aget_adel_neq.
   - right. split; [now right|exact H2].
 Qed.
@@ -122,34 +122,42 @@ Proof.
     rewrite Hc in Hp. apply prefix_nil in Hp. rewrite Hp. apply cc_pre. apply veq_refl.
   - (* Create *)
     subst o. cbn [target] in *. rewrite Hc in Hp.
-    destruct (prefix_view x sh _ (disk s) p Hsh ltac:(destruct (c_ri c); repeat constructor) Hp) as [pk [Hpk ->]].
+    set (body := [CMkBlob AInc x; COpen AInc x FData OExcl]
+                 ++ (if c_ri c then [COpen AInc x FSize OExcl; CWrite AInc x FSize 0 (dec sz)] else [])) in *.
+    assert (Kb : konly x body) by (unfold body; destruct (c_ri c); repeat constructor).
+    destruct (prefix_view x sh body (disk s) p Hsh Kb Hp) as [pk [Hpk ->]].
     rewrite V.
-    assert (POST : blobs (disk (st_of (step c s (Create x sz)))) x
-                   = kexec ([CMkBlob AInc x; COpen AInc x FData OExcl]
-                            ++ (if c_ri c then [COpen AInc x FSize OExcl; CWrite AInc x FSize 0 (dec sz)] else [])) (None, None)).
-    { rewrite step_disk, Hc, <- V. apply blobs_exec_target; [exact Hsh|]. destruct (c_ri c); repeat constructor. }
-    apply prefix_cons in Hpk. destruct Hpk as [->|[p1 [-> Hpk]]]; [apply cc_pre; rewrite V; apply veq_refl|].
+    assert (POST : blobs (disk (st_of (step c s (Create x sz)))) x = kexec body (None, None)).
+    { rewrite step_disk, Hc, <- V. now apply blobs_exec_target. }
+    unfold body in Hpk, POST.
+    apply prefix_cons in Hpk. destruct Hpk as [->|[p1 [-> Hpk]]]; [apply cc_pre; cbn [target]; rewrite V; apply veq_refl|].
     cbn [app] in Hpk. apply prefix_cons in Hpk. destruct Hpk as [->|[p2 [-> Hpk]]].
-    { eapply cc_create; eauto. cbn. destruct (c_ri c); reflexivity. }
+    { eapply (cc_create c s _ _ sz empty_dir); [reflexivity|exact M|reflexivity|].
+      cbn. destruct (c_ri c); reflexivity. }
     destruct (c_ri c) eqn:RI.
     + apply prefix_cons in Hpk. destruct Hpk as [->|[p3 [-> Hpk]]].
-      { eapply cc_create; eauto. cbn. rewrite RI. reflexivity. }
+      { eapply (cc_create c s _ _ sz (fset FData (Some []) empty_dir)); [reflexivity|exact M|reflexivity|].
+        cbn. rewrite RI. reflexivity. }
       apply prefix_one in Hpk. destruct Hpk as [->| ->].
-      { eapply cc_create; eauto. cbn. rewrite RI. reflexivity. }
-      apply cc_post. rewrite POST. apply veq_refl.
-    + apply prefix_nil in Hpk. subst p2. apply cc_post. rewrite POST. apply veq_refl.
+      { eapply (cc_create c s _ _ sz (fset FSize (Some []) (fset FData (Some []) empty_dir))); [reflexivity|exact M|reflexivity|].
+        cbn. rewrite RI. reflexivity. }
+      apply cc_post. cbn [target]. rewrite POST. apply veq_refl.
+    + apply prefix_nil in Hpk. subst p2. apply cc_post. cbn [target]. rewrite POST. apply veq_refl.
   - (* Delete / Evict *)
     rewrite Ht in *. rewrite Hc in Hp.
     assert (Hpk : prefix (filter (touches x) p) (rm_calls (area_of e) x ord (Some d))).
     { rewrite <- (filter_konly x (rm_calls (area_of e) x ord (Some d))) by apply konly_rm_calls. now apply prefix_filter. }
     rewrite blobs_exec. destruct (rm_prefix _ _ _ _ (blobs (disk s) x) _ L V Hpk) as [E|[d' [E S]]].
-    + apply cc_post. rewrite Ht, step_disk, Hc, blobs_exec, filter_konly by apply konly_rm_calls.
-      rewrite (kexec_rm_calls _ _ _ _ _ L V), E. apply veq_refl.
+    + apply cc_post. rewrite E, Ht, step_disk, Hc, blobs_exec.
+      rewrite (filter_konly x (rm_calls (area_of e) x ord (Some d))) by apply konly_rm_calls.
+      rewrite (kexec_rm_calls _ _ _ _ _ L V). apply veq_refl.
     + rewrite E. eapply cc_rm; eauto; rewrite Ht; eauto.
   - (* MarkComplete *)
     subst o. cbn [target] in *. rewrite Hc in Hp.
-    destruct (prefix_view x sh _ (disk s) p Hsh ltac:(constructor; [reflexivity|apply konly_map_unlink]) Hp) as [pk [Hpk ->]].
-    rewrite V. apply prefix_cons in Hpk. destruct Hpk as [->|[p1 [-> Hpk]]]; [apply cc_pre; rewrite V; apply veq_refl|].
+    assert (Kb : konly x (CRenDir x :: map (fun sfx => CUnlink AComp x (FMd sfx)) (immovables c d)))
+      by (constructor; [reflexivity|apply konly_map_unlink]).
+    destruct (prefix_view x sh _ (disk s) p Hsh Kb Hp) as [pk [Hpk ->]].
+    rewrite V. apply prefix_cons in Hpk. destruct Hpk as [->|[p1 [-> Hpk]]]; [apply cc_pre; cbn [target]; rewrite V; apply veq_refl|].
     apply prefix_map in Hpk. destruct Hpk as [l' [-> [q Hq]]].
     rewrite kexec_cons. unfold kapply. cbn [kstep snd fst]. rewrite kexec_unlink_mds.
     destruct (rm_mds_spec l' d) as [R1 [R2 [R3 R4]]].
@@ -161,6 +169,6 @@ Proof.
     assert (Hpk : prefix (filter (touches x) p) body).
     { rewrite <- (filter_konly x body) by exact Hk. now apply prefix_filter. }
     rewrite blobs_exec. destruct (Hpre _ Hpk) as [E|E].
-    + now apply cc_pre.
-    + apply cc_post. rewrite step_disk, Hc, blobs_exec, filter_konly by exact Hk. rewrite E. apply veq_refl.
+    + apply cc_pre. rewrite Ht. exact E.
+    + apply cc_post. rewrite E, Ht, step_disk, Hc, blobs_exec, (filter_konly x body) by exact Hk. apply veq_refl.
 Qed.
